@@ -69,6 +69,7 @@ type TermCtx struct {
 	True, False *Term
 	strIDs   map[string]int64 // interned concrete strings (atoms)
 	strByID  map[int64]string
+	strlenUsed bool
 }
 
 func NewTermCtx() *TermCtx {
@@ -749,6 +750,8 @@ const smtPrelude = `(set-option :produce-models true)
 (declare-fun strcat (Int Int) Int)
 (declare-fun ufhash (Int) Int)
 (declare-fun itoa (Int) Int)
+(declare-fun strlen (Int) Int)
+(assert (forall ((x Int)) (>= (strlen x) 0)))
 `
 
 func (t *Term) expr() string {
